@@ -33,6 +33,8 @@ Max2(a, b)  == IF a >= b THEN a ELSE b
 SetMax(S)   == CHOOSE x \in S : \A y \in S : y <= x
 SetMin(S)   == CHOOSE x \in S : \A y \in S : y >= x
 
+RevSeq(s)   == [k \in 1..Len(s) |-> s[Len(s) + 1 - k]]
+
 \* sorted sequence of a finite set of integers
 RECURSIVE SortSet(_)
 SortSet(S)  == IF S = {} THEN <<>>
